@@ -51,6 +51,104 @@ func report(prop, tier string, seed int, l *Loaded, results []*taskResult, known
 		fmt.Println(replayErr)
 	}
 
+	type reachCand struct {
+		task string
+		w    *interp.Witness
+	}
+	reachCands := map[string][]reachCand{}
+	reachNote := map[string]string{}
+	for _, tr := range results {
+		if tr == nil || tr.Err != "" {
+			continue
+		}
+		for _, id := range sortedKeys(tr.Eng.ReachWit) {
+			reachCands[id] = append(reachCands[id], reachCand{tr.Harness, tr.Eng.ReachWit[id]})
+		}
+	}
+	// vacuity guard: for every obligation id at least one witness must reach it natively;
+	// observables are compared for witnesses that are models of the exact encoding
+	reachedIDs := map[string]bool{}
+	for _, tr := range results {
+		if tr == nil || tr.Err != "" {
+			continue
+		}
+		for id, n := range tr.Eng.Reached {
+			if n > 0 {
+				reachedIDs[id] = true
+			}
+		}
+	}
+	for _, id := range sortedKeys(reachedIDs) {
+		cands := reachCands[id]
+		// exact models first
+		sort.SliceStable(cands, func(i, j int) bool {
+			return !strings.Contains(cands[i].w.Note, "abstraction") && strings.Contains(cands[j].w.Note, "abstraction")
+		})
+		ok := false
+		tried := 0
+		var lastProblem string
+		for _, c := range cands {
+			if tried >= 6 {
+				break
+			}
+			p := writeWitness(c.w, c.task+"."+id+".reach")
+			if noReplay || replayBin == "" {
+				ok = true
+				reachNote[id] = "not replayed (-noreplay)"
+				break
+			}
+			if c.w.Mode == "ideal-Q" {
+				ok = true
+				reachNote[id] = "ideal-Q reach witness (rational model) not replayed"
+				break
+			}
+			tried++
+			r, txt, err := runReplay(replayBin, p)
+			if err != nil {
+				lastProblem = "replay failed: " + firstLine(txt)
+				continue
+			}
+			got := false
+			for _, x := range r.Reached {
+				if x == id {
+					got = true
+				}
+			}
+			exact := !strings.Contains(c.w.Note, "abstraction")
+			if !got || len(r.BadAssume) > 0 {
+				lastProblem = fmt.Sprintf("witness %s did not reach the obligation natively (exact model: %v, bad_assume=%v, panic=%q)", p, exact, r.BadAssume, r.Panic)
+				if exact {
+					inconclusive = append(inconclusive, fmt.Sprintf("%s: exact reach witness of %s diverges natively: %s", c.task, id, lastProblem))
+				}
+				continue
+			}
+			if exact {
+				mism := ""
+				for k, v := range c.w.Expect {
+					if nv, ok := r.Observed[k]; ok && nv != v {
+						mism += fmt.Sprintf(" %s: symbolic %s native %s;", k, v, nv)
+					}
+				}
+				if mism != "" {
+					inconclusive = append(inconclusive, fmt.Sprintf("%s: reach witness of %s: observable mismatch:%s (witness %s)", c.task, id, mism, p))
+					lastProblem = "observable mismatch"
+					continue
+				}
+				reachNote[id] = "exact model replayed natively, observables match"
+			} else {
+				reachNote[id] = "model of the abstraction reached the obligation natively"
+			}
+			traces++
+			ok = true
+			break
+		}
+		if !ok {
+			if len(cands) == 0 {
+				lastProblem = "no satisfiable path condition found"
+			}
+			inconclusive = append(inconclusive, fmt.Sprintf("no natively validated path reaches %s (vacuity guard): %s", id, lastProblem))
+		}
+	}
 	for _, tr := range results {
 		if tr == nil {
 			continue
@@ -84,51 +182,6 @@ func report(prop, tier string, seed int, l *Loaded, results []*taskResult, known
 		for _, s := range e.Samples {
 			if len(samples) < 24 {
 				samples = append(samples, map[string]interface{}{"harness": tr.Harness, "decisions": s.Decisions, "pc_conjuncts": s.PCSize, "end": s.End, "ssa_steps": s.Steps})
-			}
-		}
-		// reach witnesses: replay natively and compare observables
-		reachNote := map[string]string{}
-		for _, id := range sortedKeys(e.ReachWit) {
-			w := e.ReachWit[id]
-			p := writeWitness(w, tr.Harness+"."+id+".reach")
-			if noReplay || replayBin == "" {
-				continue
-			}
-			if w.Mode == "ideal-Q" {
-				reachNote[id] = "ideal-Q reach witness not replayed (rational model)"
-				continue
-			}
-			r, txt, err := runReplay(replayBin, p)
-			if err != nil {
-				reachNote[id] = "replay failed: " + firstLine(err.Error())
-				inconclusive = append(inconclusive, fmt.Sprintf("%s: reach witness of %s could not be replayed natively: %v", tr.Harness, id, firstLine(txt)))
-				continue
-			}
-			okReach := false
-			for _, x := range r.Reached {
-				if x == id {
-					okReach = true
-				}
-			}
-			mism := ""
-			for k, v := range w.Expect {
-				if nv, ok := r.Observed[k]; ok && nv != v {
-					mism += fmt.Sprintf(" %s: symbolic %s native %s;", k, v, nv)
-				}
-			}
-			switch {
-			case len(r.BadAssume) > 0:
-				reachNote[id] = "native run violated an assumption: " + strings.Join(r.BadAssume, "; ")
-				inconclusive = append(inconclusive, fmt.Sprintf("%s: reach witness of %s: %s", tr.Harness, id, reachNote[id]))
-			case !okReach:
-				reachNote[id] = "native run did not reach the obligation (panic=" + r.Panic + ")"
-				inconclusive = append(inconclusive, fmt.Sprintf("%s: reach witness of %s: %s", tr.Harness, id, reachNote[id]))
-			case mism != "":
-				reachNote[id] = "observable mismatch:" + mism
-				inconclusive = append(inconclusive, fmt.Sprintf("%s: reach witness of %s: %s", tr.Harness, id, reachNote[id]))
-			default:
-				reachNote[id] = "replayed natively, observables match"
-				traces++
 			}
 		}
 		for _, id := range e.SortedObligations() {
@@ -214,12 +267,6 @@ func report(prop, tier string, seed int, l *Loaded, results []*taskResult, known
 			if !knownPrinted[line] {
 				knownPrinted[line] = true
 				fmt.Println(line)
-			}
-		}
-		// reached-but-never-asserted or asserted-but-never-reached ids
-		for id, n := range e.Reached {
-			if n > 0 && e.ReachWit[id] == nil {
-				inconclusive = append(inconclusive, fmt.Sprintf("%s: no satisfiable path reaches %s (vacuity guard)", tr.Harness, id))
 			}
 		}
 	}
